@@ -28,7 +28,7 @@ use std::time::Duration;
 pub const META: PropMeta = PropMeta {
     id: "C19",
     level: "exploration",
-    rule: "cases: histories of <= 12 ops over one Signals source at a time: new/add_signals/remove_signals/set_signals with lists over D = {HUP,USR1,USR2,WINCH,URG,CHLD,CONT,IO} (empty lists, duplicates, overlap with the current set), raise(s) thread-directed (libc::raise) or process-directed (kill(getpid())), the application blocking/unblocking a signal outside D for itself (the source must leave it alone), the application blocking/unblocking a signal of D for itself while the source does not have it configured (raised meanwhile it stays pending; once the source configures it, remove/set/drop unblock it like any configured signal), insert into / remove from an EventLoop (Dispatcher), dispatch(0), drop. After EVERY op the thread mask, sigpending() and per-signal handler counters are compared with a model (configured set, thread-private and shared pending sets, handler counts); on dispatch the callback events are compared with the pending configured instances (signal, pid, uid, si_code). non-trivial: >= 1 add/remove/set call that changed the configured set after creation AND >= 1 signal raised while configured (so it went pending) that saw a later add/remove/set call while still pending and whose delivery (callback or handler) was then checked. distinct: fingerprint of the effective op list (no-op ops removed)",
+    rule: "cases: histories of <= 14 ops over one or two Signals sources (two side by side only over disjoint sets): new/add_signals/remove_signals/set_signals with lists over D = {HUP,USR1,USR2,WINCH,URG,CHLD,CONT,IO} (empty lists, duplicates, overlap with the current set), raise(s) thread-directed (libc::raise) or process-directed (kill(getpid())), the application blocking/unblocking a signal outside D for itself (the source must leave it alone), the application blocking/unblocking a signal of D for itself while the source does not have it configured (raised meanwhile it stays pending; once the source configures it, remove/set/drop unblock it like any configured signal), insert into / remove from an EventLoop (Dispatcher), dispatch(0), drop. After EVERY op the thread mask, sigpending() and per-signal handler counters are compared with a model (configured set, thread-private and shared pending sets, handler counts); on dispatch the callback events are compared with the pending configured instances (signal, pid, uid, si_code). non-trivial: >= 1 add/remove/set call that changed the configured set after creation AND >= 1 signal raised while configured (so it went pending) that saw a later add/remove/set call while still pending and whose delivery (callback or handler) was then checked. distinct: fingerprint of the effective op list (no-op ops removed)",
     assumptions: &[
         "the check process has exactly one thread (verified via /proc/self/task before and after)",
         "no foreign process sends signals of D to the check process (handler-side sender check turns that into an infrastructure error)",
@@ -294,6 +294,11 @@ pub enum Op {
     /// raised meanwhile stays pending. Once the source configures the signal it is the source's: remove/set/drop
     /// unblock it ("dropping the source unblocks them"), whoever blocked it first.
     AppBlockD { sig: u8, on: bool },
+    /// Turn to the other of the two source slots: every source op (New/Add/Remove/Set/Insert/Unplug/DropSrc) acts on
+    /// the slot turned to. When that slot is empty a source is created there with the list given. Two sources live
+    /// side by side only over DISJOINT sets (signals the other source has configured are taken out of every list:
+    /// two sources fighting over one signal are outside the statement)
+    Switch(Vec<u8>),
 }
 
 #[derive(Serialize, Deserialize, Debug, Clone, Hash)]
@@ -321,7 +326,7 @@ fn op_strategy() -> impl Strategy<Value = Op> {
         2 => Just(Op::Insert),
         5 => Just(Op::Dispatch),
         // (nested: prop_oneof! boxes, and loses Sync, beyond 10 arms)
-        6 => prop_oneof![1 => Just(Op::Unplug), 1 => Just(Op::DropSrc), 1 => any::<bool>().prop_map(Op::AppBlock), 3 => (sig_strategy(), prop::bool::weighted(0.6)).prop_map(|(sig, on)| Op::AppBlockD { sig, on })],
+        9 => prop_oneof![1 => Just(Op::Unplug), 1 => Just(Op::DropSrc), 1 => any::<bool>().prop_map(Op::AppBlock), 3 => (sig_strategy(), prop::bool::weighted(0.6)).prop_map(|(sig, on)| Op::AppBlockD { sig, on }), 3 => list_strategy().prop_map(Op::Switch)],
     ]
 }
 
@@ -333,8 +338,9 @@ fn case_strategy() -> impl Strategy<Value = Case> {
         proptest::collection::vec(sig_strategy(), 1..=3),
         proptest::collection::vec(op_strategy(), 0..=11),
         (0u8..5, sig_strategy()),
+        (0u8..5, proptest::collection::vec(sig_strategy(), 1..=3)),
     )
-        .prop_map(|(head, first, rest, (pre, pre_sig))| {
+        .prop_map(|(head, first, rest, (pre, pre_sig), (two, second))| {
             let mut ops = Vec::with_capacity(rest.len() + 3);
             if pre == 0 {
                 // the application had a domain signal blocked before the source came to be
@@ -346,8 +352,15 @@ fn case_strategy() -> impl Strategy<Value = Case> {
             if head >= 5 {
                 ops.push(Op::Insert);
             }
+            if head >= 1 && two == 0 {
+                // a second source over a disjoint set next to the first one
+                ops.push(Op::Switch(second));
+                if head >= 4 {
+                    ops.push(Op::Insert);
+                }
+            }
             ops.extend(rest);
-            ops.truncate(12);
+            ops.truncate(14);
             Case { ops }
         })
 }
@@ -363,21 +376,25 @@ struct Ev {
     uid: u32,
     /// an `Event` accessor panicked
     bad: bool,
+    /// the source slot whose callback got it
+    src: u8,
 }
 
 type Data = Vec<Ev>;
 
 struct World {
     el: EventLoop<'static, Data>,
-    src: Option<Dispatcher<'static, Signals, Data>>,
-    token: Option<RegistrationToken>,
+    src: [Option<Dispatcher<'static, Signals, Data>>; 2],
+    token: [Option<RegistrationToken>; 2],
 }
 
 #[derive(Default)]
 struct Model {
-    live: bool,
-    /// configured set (== blocked part of D while the source lives)
-    m: u8,
+    /// the slot the source ops act on
+    cur: usize,
+    live: [bool; 2],
+    /// configured set per source slot (their union == blocked part of D, apart from `app`); 0 while not alive
+    m: [u8; 2],
     /// signals of D blocked by the application itself and not configured (disjoint from `m`)
     app: u8,
     /// pending in the thread-private queue (raised with raise/tgkill)
@@ -395,6 +412,15 @@ struct Model {
 }
 
 impl Model {
+    /// union of the configured sets of the live sources
+    fn cfg(&self) -> u8 {
+        self.m[0] | self.m[1]
+    }
+    /// configured set of the source in the other slot
+    fn other(&self) -> u8 {
+        self.m[self.cur ^ 1]
+    }
+
     /// Signals in `bits` become unblocked: every pending instance runs its handler.
     /// Returns whether anything was delivered.
     fn unblock(&mut self, bits: u8) -> bool {
@@ -477,7 +503,7 @@ impl Run {
     fn verify(&self, opi: usize, op: &Op, f8_shape: u8) -> Option<Violation> {
         let m = &self.model;
         // --- thread mask: exactly the configured signals (and whatever was blocked outside D before)
-        let want_mask = self.base_mask | full_of(if m.live { m.m } else { 0 }) | full_of(m.app);
+        let want_mask = self.base_mask | full_of(m.cfg()) | full_of(m.app);
         let got_mask = observe_mask();
         if got_mask != want_mask {
             let extra = got_mask & !want_mask;
@@ -488,10 +514,14 @@ impl Run {
                 op,
                 format!(
                     "thread signal mask differs from the configured set {}: blocked but not configured {}, configured but not blocked {} (source {})",
-                    names(if m.live { m.m } else { 0 }),
+                    names(m.cfg()),
                     names_full(extra),
                     names_full(missing),
-                    if m.live { "alive" } else { "absent/dropped" }
+                    match (m.live[0], m.live[1]) {
+                        (false, false) => "absent/dropped",
+                        (true, true) => "two sources alive",
+                        _ => "alive",
+                    }
                 ),
             ));
         }
@@ -538,32 +568,51 @@ impl Run {
     fn step(&mut self, opi: usize, op: &Op) -> Step {
         let mut f8_shape = 0u8;
         match op {
+            Op::Switch(list) => {
+                self.model.cur ^= 1;
+                self.class("switch_source_slot");
+                if self.world.src[self.model.cur].is_none() {
+                    let new = Op::New(list.clone());
+                    return self.step(opi, &new);
+                }
+            }
             Op::New(list) => {
-                if self.world.src.is_some() {
+                let slot = self.model.cur;
+                if self.world.src[slot].is_some() {
                     return Step::Skipped;
                 }
+                let other = self.model.other();
+                let list: Vec<u8> = list.iter().copied().filter(|s| bits_of(&[*s]) & other == 0).collect();
+                let list = &list;
                 let sigs = signals_of(list);
                 match catch_unwind(AssertUnwindSafe(|| Signals::new(&sigs))) {
                     Err(_) => return Step::Bad(vio("C19.mask", opi, op, "Signals::new panicked".into())),
                     Ok(Err(_)) => return Step::Abort,
                     Ok(Ok(s)) => {
-                        let d = Dispatcher::new(s, |ev: Event, _: &mut (), data: &mut Data| {
+                        let src = slot as u8;
+                        let d = Dispatcher::new(s, move |ev: Event, _: &mut (), data: &mut Data| {
                             let r = catch_unwind(AssertUnwindSafe(|| (ev.signal() as i32, ev.code(), ev.pid(), ev.uid())));
                             data.push(match r {
-                                Ok((signo, code, pid, uid)) => Ev { signo, code, pid, uid, bad: false },
-                                Err(_) => Ev { signo: -1, code: 0, pid: 0, uid: 0, bad: true },
+                                Ok((signo, code, pid, uid)) => Ev { signo, code, pid, uid, bad: false, src },
+                                Err(_) => Ev { signo: -1, code: 0, pid: 0, uid: 0, bad: true, src },
                             });
                         });
-                        self.world.src = Some(d);
+                        self.world.src[slot] = Some(d);
                     }
                 }
-                self.model.live = true;
-                self.model.m = bits_of(list);
-                if self.model.app & self.model.m != 0 {
+                self.model.live[slot] = true;
+                self.model.m[slot] = bits_of(list);
+                if self.model.app & self.model.m[slot] != 0 {
                     self.class("configured_a_signal_the_application_had_blocked");
                 }
-                self.model.app &= !self.model.m;
+                self.model.app &= !self.model.m[slot];
                 self.class("new");
+                if self.model.live[slot ^ 1] {
+                    self.class("two_sources_alive");
+                    if self.model.m[0] != 0 && self.model.m[1] != 0 {
+                        self.class("two_sources_alive_both_configured");
+                    }
+                }
                 if self.model.app != 0 {
                     self.class("new_while_application_blocks_a_domain_signal");
                 }
@@ -576,9 +625,13 @@ impl Run {
             }
             Op::Add(list) | Op::Remove(list) | Op::Set(list) => {
                 // (a second handle to the same Rc'd source; released at the end of this step)
-                let Some(d) = self.world.src.clone() else { return Step::Skipped };
+                let slot = self.model.cur;
+                let Some(d) = self.world.src[slot].clone() else { return Step::Skipped };
+                let other = self.model.other();
+                let list: Vec<u8> = list.iter().copied().filter(|s| bits_of(&[*s]) & other == 0).collect();
+                let list = &list;
                 let s = bits_of(list);
-                let old = self.model.m;
+                let old = self.model.m[slot];
                 let pend = self.model.pt | self.model.ps;
                 let new = match op {
                     Op::Add(_) => old | s,
@@ -614,7 +667,10 @@ impl Run {
                 // model: signals leaving the configured set are unblocked: their pending instances go to
                 // the handlers; signals in old ∩ new stay pending and must not reach the handler
                 self.model.age();
-                self.model.m = new;
+                self.model.m[slot] = new;
+                if self.model.live[slot ^ 1] {
+                    self.class("mask_op_while_two_sources_alive");
+                }
                 if self.model.app & new != 0 {
                     self.class("configured_a_signal_the_application_had_blocked");
                 }
@@ -660,7 +716,7 @@ impl Run {
                 if s & old != 0 && s & !old != 0 {
                     self.class("list_overlaps_current");
                 }
-                if self.world.token.is_some() {
+                if self.world.token[slot].is_some() {
                     self.class("mask_op_while_inserted");
                 }
             }
@@ -675,7 +731,7 @@ impl Run {
                     }
                 };
                 assert_eq!(r, 0, "raise/kill failed");
-                let blocked = (self.model.live && self.model.m & b != 0) || self.model.app & b != 0;
+                let blocked = self.model.cfg() & b != 0 || self.model.app & b != 0;
                 if self.model.app & b != 0 {
                     self.class("raise_while_application_blocks_it");
                 }
@@ -699,21 +755,22 @@ impl Run {
                 } else {
                     self.model.h[i] += 1;
                     self.class("raise_unconfigured");
-                    if self.model.live {
+                    if self.model.live[0] || self.model.live[1] {
                         self.class("raise_unconfigured_while_source_alive");
                     }
                 }
             }
             Op::RaiseCfg { .. } => unreachable!("resolved to Raise by run_case"),
             Op::Insert => {
-                let Some(d) = self.world.src.as_ref() else { return Step::Skipped };
-                if self.world.token.is_some() {
+                let slot = self.model.cur;
+                let Some(d) = self.world.src[slot].as_ref() else { return Step::Skipped };
+                if self.world.token[slot].is_some() {
                     return Step::Skipped;
                 }
                 let h = self.world.el.handle();
                 match catch_unwind(AssertUnwindSafe(|| h.register_dispatcher(d.clone()))) {
                     Err(_) | Ok(Err(_)) => return Step::Abort,
-                    Ok(Ok(t)) => self.world.token = Some(t),
+                    Ok(Ok(t)) => self.world.token[slot] = Some(t),
                 }
                 self.class("insert");
                 if self.model.pt | self.model.ps != 0 {
@@ -721,7 +778,7 @@ impl Run {
                 }
             }
             Op::Unplug => {
-                let Some(t) = self.world.token.take() else { return Step::Skipped };
+                let Some(t) = self.world.token[self.model.cur].take() else { return Step::Skipped };
                 self.world.el.handle().remove(t);
                 self.class("unplug");
             }
@@ -735,29 +792,44 @@ impl Run {
                 }
                 // expected: every pending instance of a configured signal, once (pending ⊆ configured
                 // in the model because only blocked signals become pending and unblocking flushes them)
-                let mut want: Vec<(i32, i32)> = Vec::new();
-                if self.world.token.is_some() {
+                let mut want: Vec<(i32, i32, u8)> = Vec::new();
+                let mut inserted_any = false;
+                let mut taken = 0u8;
+                for slot in 0..2 {
+                    if self.world.token[slot].is_none() {
+                        continue;
+                    }
+                    inserted_any = true;
+                    let m_slot = self.model.m[slot];
+                    taken |= m_slot;
                     for i in 0..N {
                         let b = 1u8 << i;
-                        if self.model.m & self.model.pt & b != 0 {
-                            want.push((D[i].1, SI_TKILL));
+                        if m_slot & self.model.pt & b != 0 {
+                            want.push((D[i].1, SI_TKILL, slot as u8));
                             if self.model.aged_t & b != 0 {
                                 self.model.delivery_checked_after_mask_op = true;
                             }
                         }
-                        if self.model.m & self.model.ps & b != 0 {
-                            want.push((D[i].1, SI_USER));
+                        if m_slot & self.model.ps & b != 0 {
+                            want.push((D[i].1, SI_USER, slot as u8));
                             if self.model.aged_s & b != 0 {
                                 self.model.delivery_checked_after_mask_op = true;
                             }
                         }
                     }
-                    let taken = self.model.m;
+                }
+                if inserted_any {
                     self.model.pt &= !taken;
                     self.model.ps &= !taken;
                     self.model.aged_t &= !taken;
                     self.model.aged_s &= !taken;
                     self.class("dispatch_inserted");
+                    if self.world.token[0].is_some() && self.world.token[1].is_some() {
+                        self.class("dispatch_two_sources_inserted");
+                        if want.iter().any(|w| w.2 == 0) && want.iter().any(|w| w.2 == 1) {
+                            self.class("dispatch_delivers_to_both_sources");
+                        }
+                    }
                 } else if self.model.pt | self.model.ps != 0 {
                     self.class("dispatch_not_inserted_with_pending");
                 }
@@ -786,7 +858,7 @@ impl Run {
             Op::AppBlockD { sig, on } => {
                 let i = (*sig as usize).min(N - 1);
                 let b = 1u8 << i;
-                let configured = self.model.live && self.model.m & b != 0;
+                let configured = self.model.cfg() & b != 0;
                 if configured || (self.model.app & b != 0) == *on {
                     return Step::Skipped;
                 }
@@ -797,7 +869,7 @@ impl Run {
                 if *on {
                     self.model.app |= b;
                     self.class("app_blocked_domain_signal");
-                    if self.model.live {
+                    if self.model.live[0] || self.model.live[1] {
                         self.class("app_blocked_domain_signal_while_source_alive");
                     }
                 } else {
@@ -805,30 +877,34 @@ impl Run {
                     if self.model.unblock(b) {
                         self.class("app_unblock_delivers_pending_to_handler");
                     }
-                    if self.model.live {
+                    if self.model.live[0] || self.model.live[1] {
                         self.class("app_unblocked_domain_signal_while_source_alive");
                     }
                 }
             }
             Op::DropSrc => {
-                if self.world.src.is_none() {
+                let slot = self.model.cur;
+                if self.world.src[slot].is_none() {
                     return Step::Skipped;
                 }
-                if let Some(t) = self.world.token.take() {
+                if let Some(t) = self.world.token[slot].take() {
                     self.world.el.handle().remove(t);
                 }
-                let d = self.world.src.take();
+                let d = self.world.src[slot].take();
                 if catch_unwind(AssertUnwindSafe(move || drop(d))).is_err() {
                     return Step::Bad(vio("C19.mask", opi, op, "dropping the source panicked".into()));
                 }
                 // dropping unblocks the configured signals: pending ones run their handlers
-                let m = self.model.m;
+                let m = self.model.m[slot];
                 if self.model.unblock(m) {
                     self.class("drop_with_pending");
                 }
-                self.model.live = false;
-                self.model.m = 0;
+                self.model.live[slot] = false;
+                self.model.m[slot] = 0;
                 self.class("drop");
+                if self.model.live[slot ^ 1] {
+                    self.class("drop_while_other_source_alive");
+                }
             }
         }
         match self.verify(opi, op, f8_shape) {
@@ -839,7 +915,7 @@ impl Run {
 }
 
 /// Callback events versus expected (signal, si_code) instances; order is not asserted.
-fn compare_events(opi: usize, op: &Op, got: &[Ev], want: &[(i32, i32)]) -> Option<Violation> {
+fn compare_events(opi: usize, op: &Op, got: &[Ev], want: &[(i32, i32, u8)]) -> Option<Violation> {
     if got.iter().any(|e| e.bad) {
         return Some(vio("C19.info", opi, op, "an Event accessor (signal/code/pid/uid) panicked".into()));
     }
@@ -874,8 +950,20 @@ fn compare_events(opi: usize, op: &Op, got: &[Ev], want: &[(i32, i32)]) -> Optio
             ));
         }
     }
+    let mut gs: Vec<(i32, u8)> = got.iter().map(|e| (e.signo, e.src)).collect();
+    let mut ws: Vec<(i32, u8)> = want.iter().map(|e| (e.0, e.2)).collect();
+    gs.sort_unstable();
+    ws.sort_unstable();
+    if gs != ws {
+        return Some(vio(
+            "C19.delivery",
+            opi,
+            op,
+            format!("events by (signal, source slot) {gs:?}, expected {ws:?}: a source reported a signal that is configured on the other source"),
+        ));
+    }
     let mut gc: Vec<(i32, i32)> = got.iter().map(|e| (e.signo, e.code)).collect();
-    let mut wc = want.to_vec();
+    let mut wc: Vec<(i32, i32)> = want.iter().map(|e| (e.0, e.1)).collect();
     gc.sort_unstable();
     wc.sort_unstable();
     if gc != wc {
@@ -905,7 +993,7 @@ pub fn run_case_opts(case: &Case, steer_f8: bool) -> CaseOutcome {
     assert_eq!(base_mask & full_of(0xFF), 0, "could not unblock the signal domain");
     let el: EventLoop<'static, Data> = EventLoop::try_new().expect("event loop");
     let mut run = Run {
-        world: World { el, src: None, token: None },
+        world: World { el, src: [None, None], token: [None, None] },
         model: Model::default(),
         base_mask,
         classes: Vec::new(),
@@ -920,7 +1008,7 @@ pub fn run_case_opts(case: &Case, steer_f8: bool) -> CaseOutcome {
         let resolved;
         let op = match op {
             Op::RaiseCfg { pick, process } => {
-                let m = if run.model.live { run.model.m } else { 0 };
+                let m = run.model.cfg();
                 let n = m.count_ones() as usize;
                 if n == 0 {
                     continue;
@@ -959,10 +1047,13 @@ pub fn run_case_opts(case: &Case, steer_f8: bool) -> CaseOutcome {
         }
     }
     // implicit end of history: drop the source, everything must be back to the initial state
-    if viol.is_none() && !aborted && run.world.src.is_some() {
-        let end = Op::DropSrc;
-        if let Step::Bad(v) = run.step(case.ops.len(), &end) {
-            viol = Some(v);
+    for slot in 0..2 {
+        if viol.is_none() && !aborted && run.world.src[slot].is_some() {
+            run.model.cur = slot;
+            let end = Op::DropSrc;
+            if let Step::Bad(v) = run.step(case.ops.len(), &end) {
+                viol = Some(v);
+            }
         }
     }
     let mut info = CaseInfo::default();
